@@ -60,15 +60,19 @@ class Report(object):
             p = common.save_replay(self.pid, i, v)
             print('VIOLATION property=%s replay=%s' % (self.pid, p))
             common.log('  ' + str({k: v[k] for k in v if k not in ('replay', 'model')})[:400])
+        inconc = sorted(set(self.inconclusive))
+        loss, gap_keys = common.coverage_gate(self.pid, self.tier, inconc)
+        for ln in loss:
+            print(ln)
+            self.machinery_errors.append(ln)
         for m in self.machinery_errors:
             common.log('MACHINERY ERROR (exit 2): %s' % m)
-        inconc = sorted(set(self.inconclusive))
         cov = dict(coverage)
         cov.setdefault('samples', self.samples or [dict(note='nothing analysed')])
         cov.update(solver=self.stats, n_functions_encoded=len(self.functions),
                    functions_encoded=dict(sorted(self.functions.items())[:400]), stubs_used=self.stubs,
                    skipped=sorted(set(self.skipped)), inconclusive=inconc[:200], n_inconclusive=len(inconc),
-                   confirmed_known=sorted(self.known_hits), replays_on_real_build=self.replays,
+                   confirmed_known=sorted(self.known_hits), model_gap_keys=gap_keys, coverage_loss=loss, replays_on_real_build=self.replays,
                    violations=[{k: v[k] for k in v if k not in ('replay', 'model')} for v in self.violations][:50])
         cov.update(self.extra)
         common.write_evidence(self.pid, self.tier, self.seed, self.level, cov, assumptions, time.time() - self.t0, len(self.violations))
